@@ -415,8 +415,9 @@ def fd_check(op, D, seed, max_coords):
     eps, tol = op.eps, op.tol
     if y.dtype != DT:
         # the operation casts to float32: matching step size and tolerance
-        info["note"] = f"output is {y.dtype} for float64 inputs: step 4e-3, tolerance 4e-3"
+        info["note"] = f"output is {y.dtype} for float64 inputs: step 4e-3, tolerance 2e-4 + 4e-3 |fd|"
         eps, tol = 4e-3, 4e-3
+    atol = tol if y.dtype == DT else 2e-4
     if not y.requires_grad:
         problems.append({"kind": "no-grad", "what": "output does not require grad although its inputs do"})
         return info, problems
@@ -448,7 +449,7 @@ def fd_check(op, D, seed, max_coords):
             dev = abs(ag - fd)
             checked += 1
             worst = max(worst, dev / (1 + abs(fd)))
-            if dev > tol * (1 + abs(fd)) and eps < 1e-3:
+            if dev > atol + tol * abs(fd) and eps < 1e-3:
                 # float32 arithmetic inside a float64 operation (e.g. float32 grid coordinates) makes a 1e-6 step
                 # meaningless: repeat with the float32 step before calling it a mismatch
                 with torch.no_grad():
@@ -461,7 +462,7 @@ def fd_check(op, D, seed, max_coords):
                 if abs(ag - fd2) <= 5e-3 * (1 + abs(fd2)):
                     info["coarse_step_used"] = info.get("coarse_step_used", 0) + 1
                     continue
-            if dev > tol * (1 + abs(fd)):
+            if dev > atol + tol * abs(fd):
                 problems.append({"kind": "gradient-mismatch", "leaf": li, "index": k, "autograd": ag, "finite_difference": fd,
                                  "what": f"leaf {li} (shape {tuple(t.shape)}) entry {k}: autograd {ag:.8g} vs central difference {fd:.8g}"})
                 if len(problems) > 4:
